@@ -113,18 +113,22 @@ theorem rk23_stages_reflect {n : Nat} (Kc : Nat → Vector K n) (y k1 : Vector K
   rw [rk23_stage_eqs, rk23_stage_eqs, rk23_new_state, rk23_new_state, kOf_vneg]
   simp [rkArg_reflect, rkNew_reflect, mirror]
 
-theorem dopri5_stages_reflect {n : Nat} (Kc : Nat → Vector K n) (y k1 : Vector K n) (x h : K) :
-    (Gen.Dopri5.stages (f := openF fun j => vneg (Kc j)) (y := y) (h := -h) (k1 := vneg k1) (x := -x)).calls
-      = (Gen.Dopri5.stages (f := openF Kc) (y := y) (h := h) (k1 := k1) (x := x)).calls.map mirror ∧
-    (Gen.Dopri5.stages (f := openF fun j => vneg (Kc j)) (y := y) (h := -h) (k1 := vneg k1) (x := -x)).y1
-      = (Gen.Dopri5.stages (f := openF Kc) (y := y) (h := h) (k1 := k1) (x := x)).y1 := by
-  rw [dopri5_stage_eqs, dopri5_stage_eqs, dopri5_new_state, dopri5_new_state, kOf_vneg]
+theorem dopri5_stages_reflect {n : Nat} (Kc : Nat → Vector K n) (y k1 : Vector K n) (x h : K) (last : Bool) (xend : K)
+    (hl : last = true → xend = x + h) :
+    (Gen.Dopri5.stages (f := openF fun j => vneg (Kc j)) (y := y) (h := -h) (k1 := vneg k1) (x := -x) (last := last) (xend := -xend)).calls
+      = (Gen.Dopri5.stages (f := openF Kc) (y := y) (h := h) (k1 := k1) (x := x) (last := last) (xend := xend)).calls.map mirror ∧
+    (Gen.Dopri5.stages (f := openF fun j => vneg (Kc j)) (y := y) (h := -h) (k1 := vneg k1) (x := -x) (last := last) (xend := -xend)).y1
+      = (Gen.Dopri5.stages (f := openF Kc) (y := y) (h := h) (k1 := k1) (x := x) (last := last) (xend := xend)).y1 := by
+  have hl' : last = true → -xend = -x + -h := fun e => by rw [hl e]; ring
+  rw [dopri5_stage_eqs _ _ _ _ _ _ _ hl', dopri5_stage_eqs _ _ _ _ _ _ _ hl, dopri5_new_state _ _ _ _ _ _ _ hl', dopri5_new_state _ _ _ _ _ _ _ hl, kOf_vneg]
   simp [rkArg_reflect, rkNew_reflect, mirror]
 
-theorem dop853_stages_reflect {n : Nat} (Kc : Nat → Vector K n) (y k1 : Vector K n) (x h : K) :
-    (Gen.Dop853.stages (f := openF fun j => vneg (Kc j)) (y := y) (h := -h) (k1 := vneg k1) (x := -x)).calls
-      = (Gen.Dop853.stages (f := openF Kc) (y := y) (h := h) (k1 := k1) (x := x)).calls.map mirror := by
-  rw [dop853_stage_eqs, dop853_stage_eqs, kOf_vneg]
+theorem dop853_stages_reflect {n : Nat} (Kc : Nat → Vector K n) (y k1 : Vector K n) (x h : K) (last : Bool) (xend : K)
+    (hl : last = true → xend = x + h) :
+    (Gen.Dop853.stages (f := openF fun j => vneg (Kc j)) (y := y) (h := -h) (k1 := vneg k1) (x := -x) (last := last) (xend := -xend)).calls
+      = (Gen.Dop853.stages (f := openF Kc) (y := y) (h := h) (k1 := k1) (x := x) (last := last) (xend := xend)).calls.map mirror := by
+  have hl' : last = true → -xend = -x + -h := fun e => by rw [hl e]; ring
+  rw [dop853_stage_eqs _ _ _ _ _ _ _ hl', dop853_stage_eqs _ _ _ _ _ _ _ hl, kOf_vneg]
   simp [rkArg_reflect, mirror]
 
 theorem rk23_stages_scale {n : Nat} (c : K) (Kc : Nat → Vector K n) (y k1 : Vector K n) (x h : K) :
@@ -132,10 +136,11 @@ theorem rk23_stages_scale {n : Nat} (c : K) (Kc : Nat → Vector K n) (y k1 : Ve
       = vsmul c (Gen.Rk23.stages (f := openF Kc) (y := y) (h := h) (k1 := k1) (x := x)).yt := by
   rw [rk23_new_state, rk23_new_state, kOf_vsmul, rkNew_scale]
 
-theorem dopri5_stages_scale {n : Nat} (c : K) (Kc : Nat → Vector K n) (y k1 : Vector K n) (x h : K) :
-    (Gen.Dopri5.stages (f := openF fun j => vsmul c (Kc j)) (y := vsmul c y) (h := h) (k1 := vsmul c k1) (x := x)).y1
-      = vsmul c (Gen.Dopri5.stages (f := openF Kc) (y := y) (h := h) (k1 := k1) (x := x)).y1 := by
-  rw [dopri5_new_state, dopri5_new_state, kOf_vsmul, rkNew_scale]
+theorem dopri5_stages_scale {n : Nat} (c : K) (Kc : Nat → Vector K n) (y k1 : Vector K n) (x h : K) (last : Bool) (xend : K)
+    (hl : last = true → xend = x + h) :
+    (Gen.Dopri5.stages (f := openF fun j => vsmul c (Kc j)) (y := vsmul c y) (h := h) (k1 := vsmul c k1) (x := x) (last := last) (xend := xend)).y1
+      = vsmul c (Gen.Dopri5.stages (f := openF Kc) (y := y) (h := h) (k1 := k1) (x := x) (last := last) (xend := xend)).y1 := by
+  rw [dopri5_new_state _ _ _ _ _ _ _ hl, dopri5_new_state _ _ _ _ _ _ _ hl, kOf_vsmul, rkNew_scale]
 end methods
 
 /-! ### the guards are mirror-symmetric -/
